@@ -144,17 +144,16 @@ def unsupName : UnsupTest → String
   | .wrapt => "wrapt" | .lruCache => "lruCache" | .constructor => "constructor"
   | .knownModule => "knownModule" | .tfPlugin => "tfPlugin" | .unresolved => "unresolved"
 
-/-- `(slot <callable> (objKey funcKey) …)`: per level (outermost first) the key of the object itself and the key of its
-`__func__` (equal unless the level is a bound method); the extracted cache rule picks one. -/
-def slot? : Sexp → Option (Callable String × List Nat)
-  | .list (.atom "slot" :: c :: keys) => do
+/-- `(slot <callable> (obj func code|none) …)`: per level (outermost first) the identity of the object, of its bound target
+and of its code object; the model's `cacheKey` (extracted cache class) decides what the verdict is filed under. -/
+def slot? : Sexp → Option (Callable String × List Ident)
+  | .list (.atom "slot" :: c :: ids) => do
       let c ← callable? c
-      let ks ← keys.mapM fun
-        | .list [a, b] => do
-            let a ← a.nat?; let b ← b.nat?
-            pure (if cacheKeyDropsReceiver then b else a)
+      let is ← ids.mapM fun
+        | .list [a, b, .atom "none"] => do pure (⟨← a.nat?, ← b.nat?, none⟩ : Ident)
+        | .list [a, b, cd] => do pure (⟨← a.nat?, ← b.nat?, some (← cd.nat?)⟩ : Ident)
         | _ => none
-      pure (c, ks)
+      pure (c, is)
   | _ => none
 
 def hcall? : Sexp → Option (HCall String)
@@ -162,10 +161,12 @@ def hcall? : Sexp → Option (HCall String)
       pure ⟨← slot.nat?, ← env? env, ← okey.nat?, ← opts? o, ← strs? args, ← kw? kw⟩
   | _ => none
 
-/-- two slots share their base cache key but differ in a context-free exclusion (for some options of the history) -/
-def sharedDisagree (cs : List (Callable String × List Nat)) (os : List Opts) : Bool :=
+/-- two slots have the same bound target (`__func__`) but differ in a context-free exclusion (for some options of the
+history): the class of finding C13-shared-function-owner-allowlist.  Deliberately stated on the bound target, not on the
+cache key: callables that merely share a code object are NOT in this class. -/
+def sharedDisagree (cs : List (Callable String × List Ident)) (os : List Opts) : Bool :=
   cs.any fun (c1, k1) => cs.any fun (c2, k2) =>
-    k1.getLast? == k2.getLast? && k1.getLast?.isSome &&
+    (k1.getLast?.map (·.func)) == (k2.getLast?.map (·.func)) && k1.getLast?.isSome &&
     os.any fun o => stableExcludedB c1.baseDesc o != stableExcludedB c2.baseDesc o
 
 def run (f : Option String) : String := f.getD "bad-args"
@@ -209,7 +210,9 @@ def handlers : List (String × (List Sexp → String)) := [
       .list (.atom "knownModules" :: knownLoadedModules.map .atom),
       .list (.atom "specials" :: builtinSpecials.map .atom),
       .list [.atom "strictEnvVar", .atom strictEnvVar],
-      .list [.atom "cacheKeyDropsReceiver", Sexp.ofBool cacheKeyDropsReceiver]]))
+      .list [.atom "cacheKeyDropsReceiver", Sexp.ofBool cacheKeyDropsReceiver],
+      .list [.atom "allowlistCacheKind", .atom (match allowlistCacheKind with
+        | .unboundInstance => "unboundInstance" | .codeObject => "codeObject" | .unresolved => "unresolved")]]))
 ]
 
 end Malt.Drv.C13
